@@ -29,6 +29,7 @@ import (
 	"github.com/cosmos/cosmos-proto/internal/verifsim/simrun"
 	"google.golang.org/protobuf/proto"
 	"google.golang.org/protobuf/reflect/protodesc"
+	"google.golang.org/protobuf/reflect/protoregistry"
 	"google.golang.org/protobuf/types/descriptorpb"
 	"google.golang.org/protobuf/types/pluginpb"
 )
@@ -39,8 +40,9 @@ var (
 	reqDir    string
 	workDir   string
 	baseReqs  []*pluginpb.CodeGeneratorRequest
-	baseNames = []string{"testpb", "test3", "shapes"}
+	baseNames = []string{"testpb", "test3", "shapes", "cosmos"}
 	wkDeps    []*descriptorpb.FileDescriptorProto
+	descFile  *descriptorpb.FileDescriptorProto
 	runCount  int
 )
 
@@ -69,6 +71,11 @@ func main() {
 					return err
 				}
 				baseReqs = append(baseReqs, r)
+			}
+			if df, err := protoregistry.GlobalFiles.FindFileByPath(shapesdesc.DescriptorFile); err == nil {
+				descFile = protodesc.ToFileDescriptorProto(df)
+			} else {
+				return err
 			}
 			for _, f := range baseReqs[2].ProtoFile {
 				if strings.HasPrefix(f.GetName(), "google/protobuf/") {
@@ -170,6 +177,9 @@ func execVariant(c *simrun.Ctx, base *pluginpb.CodeGeneratorRequest, vs *variant
 	if err := os.WriteFile(reqFile, rb, 0o644); err != nil {
 		c.EngineError = err.Error()
 		return nil
+	}
+	if keep := os.Getenv("VERIFSIM_KEEPREQ"); keep != "" {
+		os.WriteFile(filepath.Join(keep, tag+".req"), rb, 0o644) // debugging aid
 	}
 	defer func() {
 		for _, f := range []string{reqFile, outFile, ocFile, specFile} {
@@ -301,25 +311,41 @@ func run(c *simrun.Ctx) *simrun.Violation {
 	st := c.Stats
 	runCount++
 	var base *pluginpb.CodeGeneratorRequest
-	src := t.Draw("source", 6)
+	src := t.Draw("source", 8)
 	srcName := "random"
-	if src < 3 {
+	if src == 3 {
+		base = proto.Clone(baseReqs[3]).(*pluginpb.CodeGeneratorRequest)
+		srcName = baseNames[3]
+		base.Parameter = proto.String(paramPool[t.Draw("param", len(paramPool))])
+	} else if src < 3 {
 		base = proto.Clone(baseReqs[src]).(*pluginpb.CodeGeneratorRequest)
 		srcName = baseNames[src]
 		if src == 2 && t.Chance("shapes-too-big", 3, 4) {
 			// the full corpus package is large; most runs use a random set instead
-			src = 3
+			src = 4
 		}
 	}
-	if src >= 3 {
+	if src > 3 {
 		srcName = "random"
 		set := shapesdesc.RandomSet(t, shapesdesc.RandomOpts{AllowProto2: true, ReservedNames: true})
-		all := append(append([]*descriptorpb.FileDescriptorProto{}, wkDeps...), set...)
+		needDesc := false
+		for _, f := range set {
+			for _, d := range f.Dependency {
+				if d == shapesdesc.DescriptorFile {
+					needDesc = true
+				}
+			}
+		}
+		all := append(append([]*descriptorpb.FileDescriptorProto{descFile}, wkDeps...), set...)
 		if _, err := protodesc.NewFiles(&descriptorpb.FileDescriptorSet{File: all}); err != nil {
 			c.EngineError = "random schema set invalid (harness bug): " + err.Error()
 			return nil
 		}
 		base = &pluginpb.CodeGeneratorRequest{ProtoFile: set}
+		if needDesc {
+			base.ProtoFile = append([]*descriptorpb.FileDescriptorProto{descFile}, set...)
+			st.Add("requests_with_custom_option_declarations", 1)
+		}
 		for _, f := range set {
 			base.FileToGenerate = append(base.FileToGenerate, f.GetName())
 		}
@@ -480,7 +506,12 @@ func run(c *simrun.Ctx) *simrun.Violation {
 		if ref == nil {
 			bySet[key], bySetSpec[key] = r, vs
 		} else {
-			if ref.Class != r.Class || (r.Class == "error" && ref.Error != r.Error) {
+			// the text of a plugin error may legitimately name whichever broken
+			// file is processed first, so it is compared only between variants
+			// whose request is byte-identical (same order of files_to_generate
+			// and of proto_file); otherwise only the outcome class is compared
+			sameReq := strings.Join(refSpec.Generate, "\x00") == strings.Join(vs.Generate, "\x00") && strings.Join(refSpec.ProtoOrder, "\x00") == strings.Join(vs.ProtoOrder, "\x00")
+			if ref.Class != r.Class || (r.Class == "error" && sameReq && ref.Error != r.Error) {
 				return mk("C13:outcome-differs-for-same-request", ref, refSpec, nil)
 			}
 			if r.Class == "response" && strings.Join(ref.Names, "\x00") != strings.Join(r.Names, "\x00") {
